@@ -182,7 +182,8 @@ func builtinStringMatch(call FunctionCall) Value {
 	return objectValue(call.runtime.newArrayOf(valueArray))
 }
 
-var builtinStringReplaceRegexp = regexp.MustCompile("\\$(?:[\\$\\&\\'\\`1-9]|0[1-9]|[1-9][0-9])")
+// $nn (15.5.4.11 Table 22) is tried before $n.
+var builtinStringReplaceRegexp = regexp.MustCompile("\\$(?:[\\$\\&\\'\\`]|0[1-9]|[1-9][0-9]?)")
 
 func builtinStringFindAndReplaceString(input []byte, lastIndex int, match []int, target []byte, replaceValue []byte) []byte {
 	matchCount := len(match) / 2
@@ -207,8 +208,21 @@ func builtinStringFindAndReplaceString(input []byte, lastIndex int, match []int,
 			return nil
 		}
 		matchNumber := int(matchNumberParse)
+		var rest []byte
+		if len(part) == 3 && part[1] != '0' && matchNumber >= matchCount {
+			// No such two-digit capture: read $n followed by a digit.
+			matchNumber = int(part[1] - '0')
+			rest = part[2:]
+		}
 		if matchNumber >= matchCount {
 			return nil
+		}
+		if rest != nil {
+			offset := 2 * matchNumber
+			if match[offset] != -1 {
+				return append(append([]byte{}, target[match[offset]:match[offset+1]]...), rest...)
+			}
+			return rest
 		}
 		offset := 2 * matchNumber
 		if match[offset] != -1 {
